@@ -260,3 +260,45 @@ def fc_branch_net_maps_function_b_to_feature_block_b(S):
     flat = Tensor(__import__("tpv.tshape", fromlist=["x"]).reshape(I, FA.val, [-1, 2]))
     feats = S.method(S.getattr(br, "sequential"), "__call__", flat).val
     S.forall("current-out-b-c-k-is-feature-c-q-plus-k-of-function-b", Tensor(oa), lambda q: z3.And([z3.Implies(z3.And(zint(q[1][0]) == c, zint(q[2][0]) == k), zreal(oa.at(q)) == zreal(feats.at([q[0], (c * 2 + k,)]))) for c in range(2) for k in range(2)]))
+
+
+@scenario("C09", [DON + "._forward_branch", BRANCH + "._discretize_function_set"], configs=["two-function-sets-one-network"], bounded="trunk variable x:1, input functions f:1; numbers of functions / discretisation points symbolic; a history of four calls")
+def branch_is_re_evaluated_for_the_function_set_it_is_asked_for(S):
+    """history on ONE DeepONet: _forward_branch(A, it=0), (B, 0), (B, 0), (B, 1).  The branch features always belong to
+    the function set of the LAST request: A's request evaluates the branch on A's functions, B's first request in the
+    same iteration evaluates it on B's functions (not reusing A's), a repeated request for B in the same iteration
+    reuses them (no resampling), and the next iteration resamples B's functions and evaluates again."""
+    from tpv.absdom import abstract_domain
+
+    I = S.I
+    KA, KB, q, nd = S.int("KA", 1), S.int("KB", 1), S.int("q", 1), S.int("ndisc", 1)
+    d = 2
+    xs = S.new(RN, "x", 1)
+    trunk, _u, Tt, Bt = abstract_trunk_branch(S, KA, S.int("n", 1), d, q, True)
+    fsp = S.new(FS, abstract_domain(S, "Din", xs).obj, S.new(RN, "f", 1))
+    disc = AbstractSampler(S, "disc", xs, nd)
+    branch = S.new(BRANCH, fsp, disc.obj)
+    seen = []
+    branch.f["__overrides__"] = {"forward": lambda I2, o, batch: seen.append(batch), "__call__": lambda I2, o, batch: seen.append(batch)}
+    pa, pb = AbstractSampler(S, "parA", S.new(RN, "k", 1), KA), AbstractSampler(S, "parB", S.new(RN, "k", 1), KB)
+    fA = RowFn("fA", ["k", "x"], 1, {"k": 1, "x": 1})
+    fB = RowFn("fB", ["k", "x"], 1, {"k": 1, "x": 1})
+    CFS = "torchphysics.problem.domains.functionsets.functionset.CustomFunctionSet"
+    setA, setB = S.new(CFS, fsp, pa.obj, fA), S.new(CFS, fsp, pb.obj, fB)
+    net = S.new(DON, trunk, branch, S.new(RN, "u", d), Sym(zint(q) * d, "int"))
+    S.method(net, "_forward_branch", setA, 0)
+    S.ensure("request-for-A-samples-A-and-evaluates-the-branch", len(seen) == 1 and len(pa.calls) == 1 and len(pb.calls) == 0)
+    S.method(net, "_forward_branch", setB, 0)
+    S.ensure("request-for-B-in-the-same-iteration-samples-B-and-evaluates-the-branch-again", len(seen) == 2 and len(pb.calls) == 1 and len(pa.calls) == 1)
+    if len(seen) == 2 and len(pb.calls) == 1:
+        Dm = tensor_of(seen[1])
+        P = disc.calls[-1]["tensor"].val
+        Kp = pb.calls[-1]["tensor"].val
+        okd = Dm.rank == 3 and Dm.shape[2].concrete() == 1
+        S.ensure("second-evaluation-has-one-row-per-function-of-B", okd and Dm.shape[0].size_term() == zint(KB))
+        if okd:
+            S.forall("second-evaluation-is-on-the-functions-of-B", Tensor(Dm), lambda qq: zreal(Dm.at(qq)) == fB.value_terms([zreal(Kp.at([qq[0], ()])), zreal(P.at([qq[1], ()]))])[0])
+    S.method(net, "_forward_branch", setB, 0)
+    S.ensure("repeated-request-in-the-same-iteration-reuses-the-features", len(seen) == 2 and len(pb.calls) == 1)
+    S.method(net, "_forward_branch", setB, 1)
+    S.ensure("next-iteration-resamples-and-evaluates-again", len(seen) == 3 and len(pb.calls) == 2)
